@@ -296,7 +296,7 @@ func TestC12(t *testing.T) {
 		var worlds []*gen.World
 		var faults []gen.Fault
 		for i := 0; i < nW; i++ {
-			w, f := drawFaultWorld(t, true)
+			w, f := drawFaultWorld(t, rapid.IntRange(0, 2).Draw(t, "simpleWorld") > 0)
 			worlds = append(worlds, w)
 			faults = append(faults, f)
 		}
@@ -332,6 +332,7 @@ func TestC12(t *testing.T) {
 		toggles := 0
 		kept := make([]*pb.QuoteV4, nW)
 		keptOrig := make([][]byte, nW)
+		keptDamaged := make([]bool, nW)
 		t.Repeat(map[string]func(*rapid.T){
 			"verify": func(t *rapid.T) {
 				i := rapid.IntRange(0, nW-1).Draw(t, "world")
@@ -405,9 +406,11 @@ func TestC12(t *testing.T) {
 						pos := 120 + rapid.IntRange(0, 200).Draw(t, "pos")
 						if c := chain[pos]; c != '\n' && c != '-' {
 							chain[pos] = map[bool]byte{true: 'B', false: 'A'}[c == 'A']
+							keptDamaged[i] = true
 						}
 					case "restore-in-place":
 						copy(chain, keptOrig[i])
+						keptDamaged[i] = false
 					}
 				}
 				fts := worlds[cur.times].Times
@@ -415,7 +418,15 @@ func TestC12(t *testing.T) {
 				shared.GetCollateral, shared.CheckRevocations = cur.gc, cur.cr
 				gen.Eval()
 				vs := gen.Call(func() error { return verify.TdxQuote(kept[i], shared) })
-				vf := gen.Call(func() error { return verify.TdxQuote(proto.Clone(kept[i]), fresh) })
+				// the comparison: fresh options and, as long as the CALLER has not edited the kept message, a message freshly
+				// made from the quote's bytes (the library has no business editing the caller's message either)
+				var other proto.Message = proto.Clone(kept[i])
+				if !keptDamaged[i] {
+					if rq, err := gen.RefParse(worlds[i].Raw); err == nil {
+						other = rq.ToProto()
+					}
+				}
+				vf := gen.Call(func() error { return verify.TdxQuote(other, fresh) })
 				hist = append(hist, fmt.Sprintf("verify the kept message of world %d (%s) after in-place edit %q -> shared %s / fresh options and a copy of the message %s", i, faults[i].Name, edit, vs.Short(), vf.Short()))
 				distinctWorlds[i] = true
 				if !sameOutcome(vs, vf) {
